@@ -338,25 +338,24 @@ impl SessionEngine {
       old='if last.seq != cut.to_seq || last.id != cut.to_message_id {', new='if last.seq != cut.to_seq {'),
  # ------------------------------------------------------------------ C10
  dict(id='c10-validate-after-create', prop='C10', rule='C10.3', file=C, what='a validation return after the child thread exists (branch)',
-      old='''        let thread_id = self.create_continuity(workspace, None, title, false)?;
+      old='''        )?;
 
-        let event = Event {
-            id: Uuid::new_v4().to_string(),
-            session_id: thread_id.clone(),
-            timestamp_ms: now_ms(),
-            seq: 1,
-            kind: EventKind::ContinuityBranched {''',
-      new='''        let thread_id = self.create_continuity(workspace, None, title, false)?;
-        if actor_id.trim().is_empty() {
-            return Err("branch requires actor_id".to_string());
+        Ok((thread_id, parent_seq, parent_message_id))''',
+      new='''        )?;
+        if parent_message_id.is_none() && parent_seq == 0 {
+            return Err("branch of an empty thread".to_string());
         }
 
-        let event = Event {
-            id: Uuid::new_v4().to_string(),
-            session_id: thread_id.clone(),
-            timestamp_ms: now_ms(),
-            seq: 1,
-            kind: EventKind::ContinuityBranched {'''),
+        Ok((thread_id, parent_seq, parent_message_id))'''),
+ dict(id='c10-lineage-outside-lock', prop='C01', rule='C01.1', file=C, what='release the seq lock before the lineage frame of a new thread',
+      old='''        next_seq.insert(continuity_id.clone(), 1);
+
+        if let Some(kind) = lineage {''',
+      new='''        next_seq.insert(continuity_id.clone(), 1);
+        drop(next_seq);
+        let mut next_seq = std::collections::HashMap::new();
+
+        if let Some(kind) = lineage {'''),
  # ------------------------------------------------------------------ C11
  dict(id='c11-let-underscore-guard', prop='C11', rule='C11.1', file=S, what='`let _ = workspace_lock.acquire().await` in the agent loop (guard dropped at once)',
       old='''            } else if requires_workspace_lock(&invocation.name) {
